@@ -214,11 +214,14 @@ func calibrateBudget() int {
 		}
 	}
 	b3 := measure(tree, "t1")
+	// the budget is the number of expansions the implementation demonstrably performs: the largest of the
+	// three measurements (they agree for a fixed expansion budget; a change that stops expanding some
+	// shape of method must not shrink the budget it is judged against)
 	b := b1
-	if b2 < b {
+	if b2 > b {
 		b = b2
 	}
-	if b3 < b {
+	if b3 > b {
 		b = b3
 	}
 	c03Budget = b
@@ -483,7 +486,7 @@ func init() {
 			"multigraph product on 2 nodes with quote/unresolved/external/overload options; deviation-bounded sparse graphs on 5 nodes; " +
 			"AnalysisByFiles with 0..2 APIs and DI maps. Non-trivial = the root (or an API handler) has at least one callee. Distinct = distinct (model, root, options).",
 		Assumptions: []string{
-			"expansion budget is measured from the implementation on three calibration shapes (chain, star, binary tree); exactness is demanded only when the unfolded call tree has at most min(measured) internal nodes",
+			"expansion budget is measured from the implementation on three calibration shapes (chain, star, binary tree); exactness is demanded only when the unfolded call tree has at most max(measured) internal nodes (the three measurements agree on the unchanged tree)",
 			"for an overloaded root name the direct callees of at least one of the like-named entries must be present (statement is silent on overloads)",
 			"with lookup on, an edge may also lie on a caller chain ending at the root (C04's relation)",
 			"each case starts from pristine package state (reset hook, validated against fresh processes); repetition in one process is C07",
